@@ -179,6 +179,31 @@ def pipeline (L : Ledger) (σ : Sel) : List CropOp → Nat → Except (Err × Na
     | .error e => .error (e, i)
     | .ok (L', σ') => pipeline L' (σ.comp σ') rest (i + 1)
 
+/-- the three ways `snippet` accepts its start `t` -/
+inductive TForm
+  | samples (t : Rat)        -- number of samples (int or float)
+  | duration (sec : Rat)     -- Quantity of time relative to the start
+  | time (abs : Rat)         -- absolute Time
+  deriving Repr
+
+/-- `snippet`'s normalisation of `t` to samples: `Time → (t − start).to(s)`, then
+`Quantity → (t · sample_rate).to_value(one)`; a `Time` for a signal without start raises. -/
+def snippetT (L : Ledger) : TForm → Except Err Rat
+  | .samples t => .ok t
+  | .duration d => .ok (d * L.rate)
+  | .time a =>
+    match L.t0 with
+    | none => .error .valueError
+    | some t0 => .ok ((a - t0) * L.rate)
+
+/-- `snippet(z, t, n)` on the ledger level -/
+def snippet (L : Ledger) (f : TForm) (n : Int) : Except Err (Ledger × Sel) :=
+  if n < 0 then .error .valueError            -- checked before `t` is looked at
+  else
+    match snippetT L f with
+    | .error e => .error e
+    | .ok t => apply L (.snippet t n)
+
 /-- `Time.isclose(a, b)` with absolute tolerance `α` -/
 def isclose (α a b : Rat) : Bool := decide (rabs (a - b) ≤ α)
 
